@@ -382,15 +382,18 @@ def run(prog, ctx):
                     for m in (k // 2, k, 2 * k, 4 * k):
                         if n > m:
                             continue
-                        env = {"@prog": prog, "self.num_entries": n, "self.lg_nom_size": lg, "self.lg_cur_size": max(1, m.bit_length() - 1),
-                               "self.entries": [0] * m, "len(self.entries)": m}
-                        r = pp(env)
-                        if r is None:
-                            continue
-                        n_ev += 1
-                        if r != (n > k) and verdict:
-                            verdict = False
-                            wit = "with %d retained hashes in a table of %d slots (k = %d) trim %s" % (n, m, k, "rebuilds" if r else "does not rebuild")
+                        # theta: still at its initial value (exact mode: up to 15/16 * 2k hashes can be retained) or already lowered
+                        for th in ((1 << 63) - 1, (1 << 62) + 12345):
+                            env = {"@prog": prog, "self.num_entries": n, "self.lg_nom_size": lg, "self.lg_cur_size": max(1, m.bit_length() - 1),
+                                   "self.entries": [0] * m, "len(self.entries)": m, "self.theta": th}
+                            r = pp(env)
+                            if r is None:
+                                continue
+                            n_ev += 1
+                            if r != (n > k) and verdict:
+                                verdict = False
+                                wit = "with %d retained hashes in a table of %d slots (k = %d, theta %s) trim %s" % (
+                                    n, m, k, "at its initial value" if th == (1 << 63) - 1 else "lowered", "rebuilds" if r else "does not rebuild")
             if not n_ev:
                 verdict, wit = None, "trim condition not evaluable"
         res.tri(verdict, "C04.T", "C04.T|trim", "%s: %s (expected: rebuild exactly when num_entries > 2^lg_nom_size)" % (tr.id, wit), tr.id)
@@ -480,6 +483,8 @@ def run(prog, ctx):
     if not bad_:
         res.discharged += 1
     res.rule("C04.I", 1, 1, "probe index used before the table can be reallocated")
+    # ---------------- C04.N a decision taken after an insertion looks at the count after it (common.stale_count_decisions)
+    C.stale_count_rule(res, prog, "C04.N", "theta::", "theta table")
     res.explanation = ("structural rules over the %d functions reachable from ThetaSketch::{update,trim,reset,compact} and the builder: screen formula, "
                        "theta writers, insert/count pairing, capacity check post-domination and thresholds, probe geometry at call sites, replay loops, "
                        "trim/reset" % len(reach))
